@@ -1,5 +1,672 @@
-//! C23 harness (stub: not implemented yet).
+//! C23 — radicle-dag. Drives the real `Dag<u64, u64>` with a construction script and one query.
+//!
+//! Case: `<script> <query> <arg>…` (the same tokens the Lean driver reads)
+//!   script  = comma list of `n<k>:<v>` (node), `d<a>:<b>` (dependency a→b), `x<k>` (remove); `-` = empty
+//!   queries = `dump` | `sorted <ranks>` | `fold <roots> <brk>` | `prune <roots> <brk> <mode>` |
+//!             `remove <k>` | `merge <script2>`
+//!   ranks   = comma list `k:r` (default rank 0) — `sorted_by` compares ranks only (ties exercise stability)
+//!   brk     = keys at which the filter answers `Break`
+//!   mode    = ordering of `prune_by`: 0 key, 1 value only, 2 (value, key), 3 key descending
+//! Output: `ok <…>` / `panic`. Dump = `k:v:deps:dependents;…|tips|roots` through the public API
+//! (`get` over every key mentioned in the case, `tips()`, `roots()`).
+//!
+//! Oracle: the property statement evaluated on what the real code did, for *clean* scripts (fresh
+//! `n`, then `d` between existing nodes: a closed graph) that are acyclic.
+
+use std::collections::{BTreeMap, BTreeSet};
+use std::ops::ControlFlow;
+
+use radicle_dag::Dag;
+use verif_common::*;
+
+type G = Dag<u64, u64>;
+
+#[derive(Clone, Debug)]
+enum Op {
+    Node(u64, u64),
+    Dep(u64, u64),
+    Remove(u64),
+}
+
+fn pair(s: &str) -> Option<(u64, u64)> {
+    let (a, b) = s.split_once(':')?;
+    if b.contains(':') {
+        return None;
+    }
+    Some((a.parse().ok()?, b.parse().ok()?))
+}
+
+fn parse_script(s: &str) -> Option<Vec<Op>> {
+    if s == "-" {
+        return Some(vec![]);
+    }
+    s.split(',')
+        .map(|t| {
+            let (h, r) = t.split_at(t.chars().next()?.len_utf8());
+            match h {
+                "n" => pair(r).map(|(k, v)| Op::Node(k, v)),
+                "d" => pair(r).map(|(a, b)| Op::Dep(a, b)),
+                "x" => r.parse().ok().map(Op::Remove),
+                _ => None,
+            }
+        })
+        .collect()
+}
+
+fn list(s: &str) -> Option<Vec<u64>> {
+    if s == "-" || s.is_empty() {
+        return Some(vec![]);
+    }
+    s.split(',').map(|x| x.parse().ok()).collect()
+}
+
+fn build(ops: &[Op]) -> G {
+    let mut g = G::new();
+    for op in ops {
+        match op {
+            Op::Node(k, v) => {
+                g.node(*k, *v);
+            }
+            Op::Dep(a, b) => g.dependency(*a, *b),
+            Op::Remove(k) => {
+                g.remove(k);
+            }
+        }
+    }
+    g
+}
+
+fn keys_of(ops: &[Op], uni: &mut BTreeSet<u64>) {
+    for op in ops {
+        match op {
+            Op::Node(k, _) | Op::Remove(k) => {
+                uni.insert(*k);
+            }
+            Op::Dep(a, b) => {
+                uni.insert(*a);
+                uni.insert(*b);
+            }
+        }
+    }
+}
+
+fn show(xs: impl IntoIterator<Item = u64>) -> String {
+    let v: Vec<String> = xs.into_iter().map(|x| x.to_string()).collect();
+    if v.is_empty() {
+        "_".into()
+    } else {
+        v.join("+")
+    }
+}
+
+/// (nodes: key -> (value, deps, dependents), tips, roots) as seen through the public API.
+type View = (BTreeMap<u64, (u64, Vec<u64>, Vec<u64>)>, Vec<u64>, Vec<u64>);
+
+fn view(g: &G, uni: &BTreeSet<u64>) -> View {
+    let mut nodes = BTreeMap::new();
+    for k in uni {
+        if let Some(n) = g.get(k) {
+            nodes.insert(*k, (n.value, n.dependencies.iter().copied().collect(), n.dependents.iter().copied().collect()));
+        }
+    }
+    (nodes, g.tips().map(|(k, _)| *k).collect(), g.roots().map(|(k, _)| *k).collect())
+}
+
+fn dump(v: &View) -> String {
+    let nodes: Vec<String> =
+        v.0.iter().map(|(k, (val, d, t))| format!("{k}:{val}:{}:{}", show(d.iter().copied()), show(t.iter().copied()))).collect();
+    format!("{}|{}|{}", nodes.join(";"), show(v.1.iter().copied()), show(v.2.iter().copied()))
+}
+
+/// The abstract graph of a clean script: nodes with values, edges `a depends on b`.
+struct Abs {
+    val: BTreeMap<u64, u64>,
+    deps: BTreeMap<u64, BTreeSet<u64>>,
+    dependents: BTreeMap<u64, BTreeSet<u64>>,
+}
+
+impl Abs {
+    /// `None` if the script is not clean (re-inserted node, edge with a missing end, remove).
+    fn of(ops: &[Op]) -> Option<Abs> {
+        let mut a = Abs { val: BTreeMap::new(), deps: BTreeMap::new(), dependents: BTreeMap::new() };
+        for op in ops {
+            match op {
+                Op::Node(k, v) => {
+                    if a.val.insert(*k, *v).is_some() {
+                        return None;
+                    }
+                    a.deps.insert(*k, BTreeSet::new());
+                    a.dependents.insert(*k, BTreeSet::new());
+                }
+                Op::Dep(x, y) => {
+                    if !a.val.contains_key(x) || !a.val.contains_key(y) {
+                        return None;
+                    }
+                    a.deps.get_mut(x).unwrap().insert(*y);
+                    a.dependents.get_mut(y).unwrap().insert(*x);
+                }
+                Op::Remove(_) => return None,
+            }
+        }
+        Some(a)
+    }
+    /// strict descendants (transitive dependents)
+    fn desc(&self, k: u64) -> BTreeSet<u64> {
+        let mut out = BTreeSet::new();
+        let mut st: Vec<u64> = self.dependents.get(&k).map(|s| s.iter().copied().collect()).unwrap_or_default();
+        while let Some(x) = st.pop() {
+            if out.insert(x) {
+                st.extend(self.dependents[&x].iter().copied());
+            }
+        }
+        out
+    }
+    fn anc(&self, k: u64) -> BTreeSet<u64> {
+        let mut out = BTreeSet::new();
+        let mut st: Vec<u64> = self.deps.get(&k).map(|s| s.iter().copied().collect()).unwrap_or_default();
+        while let Some(x) = st.pop() {
+            if out.insert(x) {
+                st.extend(self.deps[&x].iter().copied());
+            }
+        }
+        out
+    }
+    fn acyclic(&self) -> bool {
+        self.val.keys().all(|k| !self.desc(*k).contains(k))
+    }
+    /// the view the real graph must have when only the nodes of `keep` survive
+    fn restricted(&self, keep: &BTreeSet<u64>) -> View {
+        let mut nodes = BTreeMap::new();
+        let (mut tips, mut roots) = (vec![], vec![]);
+        for k in keep {
+            let d: Vec<u64> = self.deps[k].iter().copied().collect();
+            let t: Vec<u64> = self.dependents[k].iter().copied().filter(|x| keep.contains(x)).collect();
+            if t.is_empty() {
+                tips.push(*k);
+            }
+            if d.is_empty() {
+                roots.push(*k);
+            }
+            nodes.insert(*k, (self.val[k], d, t));
+        }
+        (nodes, tips, roots)
+    }
+    fn reach(&self, roots: &[u64]) -> BTreeSet<u64> {
+        let mut out = BTreeSet::new();
+        for r in roots {
+            if self.val.contains_key(r) {
+                out.insert(*r);
+                out.extend(self.desc(*r));
+            }
+        }
+        out
+    }
+}
+
+/// The calls a fold/prune must make: reachable nodes that are not strict descendants of a node that was
+/// itself called and answered Break. Returns (called set, broken set).
+fn expected_calls(a: &Abs, roots: &[u64], brk: &[u64]) -> (BTreeSet<u64>, BTreeSet<u64>) {
+    let reach = a.reach(roots);
+    // process in an order where ancestors come first: repeatedly take nodes whose ancestors are decided
+    let mut called: BTreeMap<u64, bool> = BTreeMap::new();
+    let mut todo: Vec<u64> = reach.iter().copied().collect();
+    while !todo.is_empty() {
+        let before = todo.len();
+        todo.retain(|x| {
+            let anc: Vec<u64> = a.anc(*x).into_iter().filter(|y| reach.contains(y)).collect();
+            if anc.iter().all(|y| called.contains_key(y)) {
+                let c = !anc.iter().any(|b| brk.contains(b) && called[b]);
+                called.insert(*x, c);
+                false
+            } else {
+                true
+            }
+        });
+        if todo.len() == before {
+            break;
+        }
+    }
+    let c: BTreeSet<u64> = called.iter().filter(|(_, v)| **v).map(|(k, _)| *k).collect();
+    let b = c.iter().copied().filter(|k| brk.contains(k)).collect();
+    (c, b)
+}
+
+fn check_order(a: &Abs, order: &[u64], class: &str, o: &mut Outcome) {
+    let pos: BTreeMap<u64, usize> = order.iter().enumerate().map(|(i, k)| (*k, i)).collect();
+    if pos.len() != order.len() {
+        o.violations.push((class.into(), format!("a key is visited twice: {order:?}")));
+        return;
+    }
+    for (v, i) in &pos {
+        for u in a.anc(*v) {
+            if let Some(j) = pos.get(&u) {
+                if j > i {
+                    o.violations.push((class.into(), format!("{v} visited before its dependency {u}: {order:?}")));
+                    return;
+                }
+            }
+        }
+    }
+}
+
+fn run_case(input: &str) -> Outcome {
+    let toks: Vec<&str> = input.split(' ').collect();
+    if toks.len() < 2 {
+        return Outcome::new("bad-case").trivial();
+    }
+    let Some(ops) = parse_script(toks[0]) else { return Outcome::new("bad-case").trivial() };
+    let mut uni = BTreeSet::new();
+    keys_of(&ops, &mut uni);
+    let abs = Abs::of(&ops).filter(|a| a.acyclic());
+    let mut o = Outcome::new("");
+    o.tags.push(format!("q-{}", toks[1]));
+    o.tags.push(if abs.is_some() { "graph-clean-acyclic" } else { "graph-irregular" }.into());
+    let n_nodes = abs.as_ref().map(|a| a.val.len()).unwrap_or(0);
+    o.tags.push(format!("nodes-{}", match n_nodes { 0 => "0", 1..=3 => "1-3", 4..=5 => "4-5", 6..=12 => "6-12", _ => "13+" }));
+    let res: Result<String, String> = match (toks[1], &toks[2..]) {
+        ("dump", []) => catch(|| {
+            let g = build(&ops);
+            let v = view(&g, &uni);
+            if let Some(a) = &abs {
+                let keep: BTreeSet<u64> = a.val.keys().copied().collect();
+                if v != a.restricted(&keep) {
+                    o.violations.push(("build-inconsistent".into(), format!("built graph {} differs from its script", dump(&v))));
+                }
+            }
+            format!("ok {}", dump(&v))
+        }),
+        ("sorted", [rk]) => {
+            let Some(rk) = (if *rk == "-" { Some(vec![]) } else { rk.split(',').map(pair).collect::<Option<Vec<_>>>() }) else {
+                return Outcome::new("bad-case").trivial();
+            };
+            let rank = |k: &u64| rk.iter().find(|p| p.0 == *k).map(|p| p.1).unwrap_or(0);
+            catch(|| {
+                let g = build(&ops);
+                let order: Vec<u64> = g.sorted_by(|a, b| rank(a).cmp(&rank(b))).into_iter().collect();
+                if let Some(a) = &abs {
+                    let set: BTreeSet<u64> = order.iter().copied().collect();
+                    if set.len() != order.len() || set != a.val.keys().copied().collect() {
+                        o.violations.push(("sorted-not-each-node-once".into(), format!("order {order:?}")));
+                    }
+                    check_order(a, &order, "sorted-not-topological", &mut o);
+                }
+                if rk.iter().any(|p| p.1 != 0) {
+                    o.tags.push("sorted-custom-compare".into());
+                }
+                format!("ok {}", show(order))
+            })
+        }
+        ("fold", [roots, brk]) => {
+            let (Some(roots), Some(brk)) = (list(roots), list(brk)) else { return Outcome::new("bad-case").trivial() };
+            uni.extend(roots.iter().copied());
+            let asc = roots.windows(2).all(|w| w[0] < w[1]);
+            let r = catch(|| {
+                let g = build(&ops);
+                g.fold(&roots, Vec::new(), |mut acc: Vec<u64>, k, _| {
+                    acc.push(*k);
+                    if brk.contains(k) { ControlFlow::Break(acc) } else { ControlFlow::Continue(acc) }
+                })
+            });
+            match r {
+                Ok(acc) => {
+                    if !asc {
+                        o.violations.push(("fold-unsorted-roots-accepted".into(), format!("roots {roots:?}")));
+                    }
+                    if let Some(a) = &abs {
+                        let (exp, broken) = expected_calls(a, &roots, &brk);
+                        let got: BTreeSet<u64> = acc.iter().copied().collect();
+                        if got != exp {
+                            o.violations.push(("fold-skip-set".into(), format!("visited {acc:?}, expected set {exp:?}")));
+                        }
+                        check_order(a, &acc, "fold-order", &mut o);
+                        o.tags.push(if broken.is_empty() { "fold-no-break" } else { "fold-break" }.into());
+                        if got.len() < a.reach(&roots).len() {
+                            o.tags.push("fold-skipped-some".into());
+                        }
+                    }
+                    Ok(format!("ok {}", show(acc)))
+                }
+                Err(_) => {
+                    o.tags.push("fold-panic".into());
+                    if asc {
+                        o.violations.push(("fold-panic".into(), format!("fold panicked on ascending roots {roots:?}")));
+                    }
+                    Ok("panic".into())
+                }
+            }
+        }
+        ("prune", [roots, brk, mode]) => {
+            let (Some(roots), Some(brk), Ok(mode)) = (list(roots), list(brk), mode.parse::<u64>()) else {
+                return Outcome::new("bad-case").trivial();
+            };
+            uni.extend(roots.iter().copied());
+            o.tags.push(format!("prune-mode-{}", mode.min(3)));
+            catch(|| {
+                let mut g = build(&ops);
+                let mut calls: Vec<(u64, Vec<u64>)> = vec![];
+                g.prune_by(
+                    &roots,
+                    |k, _, sibs| {
+                        calls.push((*k, sibs.map(|(k, _)| *k).collect()));
+                        if brk.contains(k) { ControlFlow::Break(()) } else { ControlFlow::Continue(()) }
+                    },
+                    |(k1, v1), (k2, v2)| match mode {
+                        0 => k1.cmp(k2),
+                        1 => v1.cmp(v2),
+                        2 => v1.cmp(v2).then(k1.cmp(k2)),
+                        _ => k2.cmp(k1),
+                    },
+                );
+                let v = view(&g, &uni);
+                if let Some(a) = &abs {
+                    let (exp, broken) = expected_calls(a, &roots, &brk);
+                    let order: Vec<u64> = calls.iter().map(|c| c.0).collect();
+                    let got: BTreeSet<u64> = order.iter().copied().collect();
+                    if got != exp {
+                        o.violations.push(("prune-call-set".into(), format!("called {order:?}, expected set {exp:?}")));
+                    }
+                    check_order(a, &order, "prune-order", &mut o);
+                    let mut gone: BTreeSet<u64> = broken.clone();
+                    for b in &broken {
+                        gone.extend(a.desc(*b));
+                    }
+                    let keep: BTreeSet<u64> = a.val.keys().copied().filter(|k| !gone.contains(k)).collect();
+                    if v != a.restricted(&keep) {
+                        o.violations.push(("prune-not-exact".into(), format!("after prune {}, expected nodes {keep:?}", dump(&v))));
+                    }
+                    // siblings at each call: nodes still present that are neither ancestors nor descendants
+                    let mut removed: BTreeSet<u64> = BTreeSet::new();
+                    for (k, sibs) in &calls {
+                        let (an, de) = (a.anc(*k), a.desc(*k));
+                        let exp_s: Vec<u64> =
+                            a.val.keys().copied().filter(|x| x != k && !removed.contains(x) && !an.contains(x) && !de.contains(x)).collect();
+                        if &exp_s != sibs {
+                            o.violations.push(("prune-siblings".into(), format!("siblings of {k}: {sibs:?}, expected {exp_s:?}")));
+                            break;
+                        }
+                        if brk.contains(k) {
+                            removed.insert(*k);
+                            removed.extend(de);
+                        }
+                    }
+                    o.tags.push(if broken.is_empty() { "prune-no-break" } else { "prune-break" }.into());
+                    if !gone.is_empty() && gone.len() > broken.len() {
+                        o.tags.push("prune-removed-descendants".into());
+                    }
+                }
+                let cs: Vec<String> = calls.iter().map(|(k, s)| format!("{k}[{}]", show(s.iter().copied()))).collect();
+                format!("ok {}#{}", cs.join(","), dump(&v))
+            })
+        }
+        ("remove", [k]) => {
+            let Ok(k) = k.parse::<u64>() else { return Outcome::new("bad-case").trivial() };
+            uni.insert(k);
+            catch(|| {
+                let mut g = build(&ops);
+                g.remove(&k);
+                let v = view(&g, &uni);
+                if let Some(a) = &abs {
+                    let mut gone = BTreeSet::new();
+                    if a.val.contains_key(&k) {
+                        gone.insert(k);
+                        gone.extend(a.desc(k));
+                        o.tags.push(if gone.len() > 1 { "remove-with-descendants" } else { "remove-leaf" }.into());
+                    } else {
+                        o.tags.push("remove-absent".into());
+                    }
+                    let keep: BTreeSet<u64> = a.val.keys().copied().filter(|x| !gone.contains(x)).collect();
+                    if v != a.restricted(&keep) {
+                        o.violations.push(("remove-not-exact".into(), format!("after remove({k}) {}, expected nodes {keep:?}", dump(&v))));
+                    }
+                }
+                format!("ok {}", dump(&v))
+            })
+        }
+        ("merge", [s2]) => {
+            let Some(ops2) = parse_script(s2) else { return Outcome::new("bad-case").trivial() };
+            keys_of(&ops2, &mut uni);
+            let abs2 = Abs::of(&ops2).filter(|a| a.acyclic());
+            o.tags.push(if abs2.is_some() { "merge-other-closed" } else { "merge-other-irregular" }.into());
+            catch(|| {
+                let mut g = build(&ops);
+                let other = build(&ops2);
+                g.merge(other);
+                let v = view(&g, &uni);
+                if let (Some(a), Some(b)) = (&abs, &abs2) {
+                    // union of nodes (self's value wins) and edges
+                    let mut u = Abs { val: b.val.clone(), deps: b.deps.clone(), dependents: b.dependents.clone() };
+                    for (k, val) in &a.val {
+                        u.val.insert(*k, *val);
+                        u.deps.entry(*k).or_default().extend(a.deps[k].iter().copied());
+                        u.dependents.entry(*k).or_default().extend(a.dependents[k].iter().copied());
+                    }
+                    let keep: BTreeSet<u64> = u.val.keys().copied().collect();
+                    if v != u.restricted(&keep) {
+                        o.violations.push(("merge-not-union".into(), format!("after merge {}, expected nodes {keep:?}", dump(&v))));
+                    }
+                    let nroots = b.val.keys().filter(|k| b.deps[k].is_empty()).count();
+                    o.tags.push(format!("merge-other-roots-{}", nroots.min(3)));
+                    if a.val.keys().any(|k| b.val.contains_key(k)) {
+                        o.tags.push("merge-overlap".into());
+                    }
+                }
+                format!("ok {}", dump(&v))
+            })
+        }
+        _ => return Outcome::new("bad-case").trivial(),
+    };
+    match res {
+        Ok(s) => o.output = s,
+        Err(m) => {
+            o.output = "panic".into();
+            o.violations.push(("unexpected-panic".into(), m));
+        }
+    }
+    o.nontrivial = n_nodes >= 2;
+    o
+}
+
+// ---------------------------------------------------------------------------------------------------
+// generation
+
+/// Script of a DAG on `labels` (node i gets key labels[i]); `edges` = (i, j): node j depends on node i, i < j.
+fn script(labels: &[u64], vals: &[u64], edges: &[(usize, usize)], rng: &mut Rng, shuffle: bool) -> String {
+    let mut ns: Vec<String> = labels.iter().zip(vals).map(|(k, v)| format!("n{k}:{v}")).collect();
+    let mut ds: Vec<String> = edges.iter().map(|(i, j)| format!("d{}:{}", labels[*j], labels[*i])).collect();
+    if shuffle {
+        for i in (1..ns.len()).rev() {
+            ns.swap(i, rng.below(i as u64 + 1) as usize);
+        }
+        for i in (1..ds.len()).rev() {
+            ds.swap(i, rng.below(i as u64 + 1) as usize);
+        }
+    }
+    ns.extend(ds);
+    if ns.is_empty() { "-".into() } else { ns.join(",") }
+}
+
+fn subset(labels: &[u64], mask: u64) -> String {
+    let v: Vec<u64> = labels.iter().enumerate().filter(|(i, _)| mask >> i & 1 == 1).map(|(_, k)| *k).collect();
+    nats(&v)
+}
+
+fn perm(n: usize, rng: &mut Rng) -> Vec<u64> {
+    let mut p: Vec<u64> = (1..=n as u64).collect();
+    for i in (1..n).rev() {
+        p.swap(i, rng.below(i as u64 + 1) as usize);
+    }
+    p
+}
+
+fn roots_of(labels: &[u64], edges: &[(usize, usize)]) -> Vec<u64> {
+    let mut r: Vec<u64> = (0..labels.len()).filter(|j| !edges.iter().any(|e| e.1 == *j)).map(|j| labels[j]).collect();
+    r.sort();
+    r
+}
+
+fn ranks(labels: &[u64], rng: &mut Rng) -> String {
+    if labels.is_empty() {
+        return "-".into();
+    }
+    match rng.below(3) {
+        0 => "-".into(),
+        1 => labels.iter().map(|k| format!("{k}:{}", rng.below(2))).collect::<Vec<_>>().join(","),
+        _ => labels.iter().map(|k| format!("{k}:{}", rng.below(labels.len() as u64 + 1))).collect::<Vec<_>>().join(","),
+    }
+}
+
+/// Every query on one DAG; `all_masks`: enumerate every Break set, else `k` random ones.
+fn queries(labels: &[u64], vals: &[u64], edges: &[(usize, usize)], rng: &mut Rng, all_masks: bool, out: &mut Vec<String>) {
+    let n = labels.len();
+    let s = script(labels, vals, edges, rng, true);
+    out.push(format!("{s} dump"));
+    out.push(format!("{s} sorted -"));
+    out.push(format!("{s} sorted {}", ranks(labels, rng)));
+    let roots = roots_of(labels, edges);
+    let masks: Vec<u64> = if all_masks { (0..1u64 << n).collect() } else { (0..6).map(|_| rng.next() & rng.next() & ((1u64 << n.min(63)) - 1)).collect() };
+    for m in &masks {
+        let brk = subset(labels, *m);
+        out.push(format!("{s} fold {} {brk}", nats(&roots)));
+        out.push(format!("{s} prune {} {brk} {}", nats(&roots), rng.below(4)));
+    }
+    // fold / prune from a sub-set of the nodes as roots (prune: any order, also non-nodes)
+    let mut sub: Vec<u64> = labels.iter().copied().filter(|_| rng.bool()).collect();
+    sub.sort();
+    out.push(format!("{s} fold {} {}", nats(&sub), subset(labels, rng.next())));
+    let mut any: Vec<u64> = labels.iter().copied().filter(|_| rng.bool()).collect();
+    if rng.chance(1, 3) {
+        any.push(99);
+    }
+    for i in (1..any.len()).rev() {
+        any.swap(i, rng.below(i as u64 + 1) as usize);
+    }
+    out.push(format!("{s} prune {} {} {}", nats(&any), subset(labels, rng.next()), rng.below(4)));
+    for k in labels {
+        out.push(format!("{s} remove {k}"));
+    }
+    out.push(format!("{s} remove 99"));
+    // merge: split the edge set / node set in two overlapping closed graphs, and merge a disjoint copy
+    if n > 0 {
+        let cut = rng.below(n as u64 + 1) as usize;
+        let in_a = |i: usize| i < cut || rng_bit(labels[i], cut as u64);
+        let (mut ea, mut eb) = (vec![], vec![]);
+        for e in edges {
+            if rng.bool() { ea.push(*e) } else { eb.push(*e) }
+        }
+        let part = |es: &[(usize, usize)], extra: &dyn Fn(usize) -> bool| -> (Vec<u64>, Vec<u64>, Vec<(usize, usize)>) {
+            let idx: Vec<usize> = (0..n).filter(|i| extra(*i) || es.iter().any(|e| e.0 == *i || e.1 == *i)).collect();
+            let l: Vec<u64> = idx.iter().map(|i| labels[*i]).collect();
+            let v: Vec<u64> = idx.iter().map(|i| vals[*i]).collect();
+            let es2 = es.iter().map(|e| (idx.iter().position(|x| *x == e.0).unwrap(), idx.iter().position(|x| *x == e.1).unwrap())).collect();
+            (l, v, es2)
+        };
+        let (la, va, ea2) = part(&ea, &in_a);
+        let (lb, vb, eb2) = part(&eb, &|i| !in_a(i));
+        let vb: Vec<u64> = vb.iter().map(|v| v + 100).collect(); // other's values differ: self must win
+        out.push(format!("{} merge {}", script(&la, &va, &ea2, rng, true), script(&lb, &vb, &eb2, rng, true)));
+        out.push(format!("- merge {s}"));
+        out.push(format!("{s} merge -"));
+    }
+}
+
+fn rng_bit(k: u64, salt: u64) -> bool {
+    (k.wrapping_mul(0x9e3779b97f4a7c15) ^ salt.wrapping_mul(0xbf58476d1ce4e5b9)) >> 17 & 1 == 1
+}
+
+fn random_dag(rng: &mut Rng, max_n: u64) -> (Vec<u64>, Vec<u64>, Vec<(usize, usize)>) {
+    let n = rng.range(2, max_n) as usize;
+    let labels = perm(n, rng);
+    let vals: Vec<u64> = (0..n).map(|_| rng.below(4)).collect();
+    let dens = rng.range(1, 4);
+    let mut edges = vec![];
+    for j in 1..n {
+        for i in 0..j {
+            let near = j - i <= 3;
+            if rng.chance(if near { dens } else { 1 }, if near { 6 } else { 4 * n as u64 }) {
+                edges.push((i, j));
+            }
+        }
+    }
+    (labels, vals, edges)
+}
+
+/// Irregular scripts: dangling edges, re-inserted nodes, cycles, removals, unsorted fold roots.
+fn irregular(rng: &mut Rng) -> String {
+    let n = rng.range(1, 6);
+    let mut ops = vec![];
+    for _ in 0..rng.range(1, 12) {
+        ops.push(match rng.below(6) {
+            0 | 1 => format!("n{}:{}", rng.range(1, n), rng.below(3)),
+            2 | 3 | 4 => format!("d{}:{}", rng.range(1, n + 1), rng.range(1, n + 1)),
+            _ => format!("x{}", rng.range(1, n)),
+        });
+    }
+    let s = ops.join(",");
+    let ks: Vec<u64> = (1..=n).collect();
+    match rng.below(7) {
+        0 => format!("{s} dump"),
+        1 => format!("{s} sorted {}", ranks(&ks, rng)),
+        2 => {
+            let mut r: Vec<u64> = ks.iter().copied().filter(|_| rng.bool()).collect();
+            if rng.chance(1, 3) {
+                r.reverse();
+            }
+            if rng.chance(1, 6) && !r.is_empty() {
+                r.push(r[0]);
+            }
+            format!("{s} fold {} {}", nats(&r), subset(&ks, rng.next()))
+        }
+        3 => format!("{s} prune {} {} {}", subset(&ks, rng.next()), subset(&ks, rng.next()), rng.below(4)),
+        4 => format!("{s} remove {}", rng.range(1, n + 1)),
+        _ => {
+            let mut ops2 = vec![];
+            for _ in 0..rng.range(1, 8) {
+                ops2.push(match rng.below(5) {
+                    0 | 1 => format!("n{}:{}", rng.range(1, n + 2), 7),
+                    _ => format!("d{}:{}", rng.range(1, n + 2), rng.range(1, n + 2)),
+                });
+            }
+            format!("{s} merge {}", ops2.join(","))
+        }
+    }
+}
+
 fn main() {
-    eprintln!("C23: harness not implemented");
-    std::process::exit(3);
+    let mut ctx = Ctx::from_args("C23");
+    if !ctx.run_fixed(run_case) {
+        let mut rng = ctx.rng();
+        let mut cases: Vec<String> = vec![];
+        // 1. every DAG on up to 4 (thorough: 5) nodes, every Break set, under a random relabelling
+        let max_n = ctx.size(4, 5) as usize;
+        for n in 0..=max_n {
+            let pairs: Vec<(usize, usize)> = (0..n).flat_map(|j| (0..j).map(move |i| (i, j))).collect();
+            for mask in 0..1u64 << pairs.len() {
+                let edges: Vec<(usize, usize)> = pairs.iter().enumerate().filter(|(b, _)| mask >> b & 1 == 1).map(|(_, e)| *e).collect();
+                let labels = if rng.bool() { (1..=n as u64).collect() } else { perm(n, &mut rng) };
+                let vals: Vec<u64> = (0..n).map(|_| rng.below(3)).collect();
+                queries(&labels, &vals, &edges, &mut rng, true, &mut cases);
+            }
+        }
+        ctx.note("exhaustive_dags_up_to_nodes", max_n);
+        // 2. random larger DAGs
+        for _ in 0..ctx.size(120, 4000) {
+            let (l, v, e) = random_dag(&mut rng, 40);
+            queries(&l, &v, &e, &mut rng, false, &mut cases);
+        }
+        // 3. irregular scripts (correspondence only)
+        for _ in 0..ctx.size(1500, 40000) {
+            cases.push(irregular(&mut rng));
+        }
+        for input in cases {
+            let o = run_case(&input);
+            ctx.record(&input, o);
+        }
+    }
+    ctx.finish(
+        "every DAG on <=4 (thorough <=5) nodes under a random key relabelling with every Break subset for fold/prune (all four \
+         prune orderings), every single-node remove, sorted_by with rank tables (ties), merges of overlapping closed parts; random \
+         DAGs up to 40 nodes; irregular scripts (dangling edges, re-inserted nodes, cycles, removals, unsorted fold roots) for \
+         correspondence only; non-trivial = clean acyclic graph with >= 2 nodes; distinct by input text",
+        false,
+    );
 }
